@@ -66,3 +66,24 @@ Fixpoint ser_items (h : heap) (seen : list loc) (its : list item) : list Z :=
 Definition ser_stack (h : heap) (es : list item) : list Z := zlen es :: ser_items h [] es.
 
 Definition datoshi (pico : Z) : Z := (pico + ExecFeeFactorMultiplier - 1) / ExecFeeFactorMultiplier.
+
+(* what the harness observes of a finished run *)
+Inductive outcome :=
+| OHalt (gas_datoshi : Z) (stack : list Z)     (* GasConsumed(), serialised Estack (VM/Obs.v) *)
+| OFault (gas_datoshi : Z).
+
+
+Definition outcome_of (r : result) : option outcome :=
+  match r with
+  | Halted s => Some (OHalt (datoshi (s_gas s)) (ser_stack (s_heap s) (final_stack s)))
+  | Faulted g => Some (OFault (datoshi g))
+  | Running _ => None
+  end.
+
+Definition outcome_eqb (a b : outcome) : bool :=
+  match a, b with
+  | OHalt g s, OHalt g' s' => (g =? g') && zlist_eqb s s'
+  | OFault g, OFault g' => g =? g'
+  | _, _ => false
+  end.
+
